@@ -261,10 +261,16 @@ func vpApplyRespCell(role StateType, shapes []int) {
 		if !hasSelf {
 			can = false
 		}
-		vpAssert(vpImplies(can, post.last == pre.view.last+1), "G6/auto-leave-proposed-once-applied")
+		// (a leader that has not yet committed an entry of its own term may
+		// propose the leave now or once it has; the property only asks that it
+		// leaves by itself — a false alarm on a deferring variant showed the
+		// unconditional form demanded more than C10 states)
+		inTerm := pre.view.termAt(pre.view.committed) == r.Term
+		proposed := post.last == pre.view.last+1
+		vpAssert(vpImplies(vpAnd(can, inTerm), proposed), "G6/auto-leave-proposed-once-applied")
 		ps2 := post.slotAt(pre.view.last + 1)
-		vpAssert(vpImplies(can, vpAnd(ps2.typ == 2, ps2.dlen == 0, ps2.term == r.Term, r.pendingConfIndex == pre.view.last+1)), "G6/auto-leave-entry-is-empty-confchange-v2")
-		vpAssert(vpImplies(!can, post.last == pre.view.last), "G6/no-auto-leave-otherwise")
+		vpAssert(vpImplies(proposed, vpAnd(can, ps2.typ == 2, ps2.dlen == 0, ps2.term == r.Term, r.pendingConfIndex == pre.view.last+1)), "G6/auto-leave-entry-is-empty-confchange-v2")
+		vpAssert(vpOr(proposed, post.last == pre.view.last), "G6/no-auto-leave-otherwise")
 	} else {
 		vpAssert(post.last == pre.view.last, "G6/only-leaders-propose-auto-leave")
 	}
